@@ -24,6 +24,8 @@ def c14(ck, tier, seed):
     ck.sample_from(files)
     results = vlib.validate("TraceManager", files, ["C14"])
     ck.add_validation(results, driver_cmd=cmds)
+    import checks
+    checks.store_mc(ck, tier)
     ck.assumptions += ["index backend only (capacity is exact there)", "reordering / add_vars under memory pressure abort the "
                        "process by design of their API (no error return): exercised separately when registered as findings"]
 
